@@ -14,12 +14,12 @@ Definition hdr (v : N) : header := {| h_version := v; h_dims := (640, 480, 0); h
 (* float32 words: 1.0, 2.0, 0.5, -1.0, NaN *)
 Definition f1 := 1065353216. Definition f2 := 1073741824. Definition fh := 1056964608. Definition fm1 := 3212836864. Definition fnan := 2143289344.
 
-Ltac wf_strs := repeat (first [ split | constructor | (eexists; split; [reflexivity|vm_compute; reflexivity]) | (vm_compute; reflexivity) ]).
+Ltac conjs := repeat match goal with |- _ /\ _ => split end.
+(* closed side conditions: never vm_compute a goal in which a word is still bound (Pos.compare_cont recurses on its literal
+   second argument and the normal form explodes); decompose with constructors first *)
+Ltac wf_strs := repeat constructor; try (eexists; split; [reflexivity|vm_compute; reflexivity]).
 Lemma hdr_wf v : v < 4294967296 -> wf_header (hdr v).
-Proof. intros Hv. unfold wf_header, hdr, u16. cbn [h_version h_dims h_comps fst snd]. split; [exact Hv|].
-  repeat split; try (vm_compute; reflexivity).
-  repeat constructor; unfold wf_component, wf_str, u16; cbn [ex_comp ex_comp2 c_name c_format c_points c_limbs c_colors fst snd];
-    wf_strs. Qed.
+Proof. intros Hv. unfold wf_header, hdr. cbn [h_version h_dims h_comps]. split; [exact Hv|]. wf_strs. Qed.
 
 (* ---------- v0.0: three frames with 2, 0 and 1 people; negative and NaN confidences ---------- *)
 Definition ex_person (id : Z) (a b c d e f ca cb cc : N) : person00 :=
@@ -56,12 +56,12 @@ Lemma v00_window_refuted : exists c a,
 Proof.
   exists ex00, ex_win. destruct ex00_wf as [Hw Hne]. split; [exact Hw|]. split; [exact Hne|].
   split; [reflexivity|]. split; [reflexivity|]. split; [reflexivity|].
-  pose proof (v00_read_bytes ex00 None ex_win [] Hw Hne I) as Hb.
-  pose proof (v00_read_stream ex00 None ex_win [] Hw Hne I) as Hs. rewrite app_nil_r in Hb, Hs.
+  pose proof (v00_read_bytes ex00 None ex_win [] Hw I) as Hb.
+  pose proof (v00_read_stream ex00 None ex_win [] Hw I) as Hs. rewrite app_nil_r in Hb, Hs.
   rewrite Hb, Hs. split; intros H; apply (f_equal (fun r => match r with Ok p => b_shape (p_body p) | Err _ => [] end)) in H;
     vm_compute in H; discriminate.
 Qed.
-(* a file that declares zero frames *)
+(* a file that declares zero frames decodes to the empty pose *)
 Definition ex00_empty : content00 := {| k0_header := hdr 0; k0_fps := 30; k0_frames := [] |}.
 Lemma ex00_empty_wf : wf00 ex00_empty /\ k0_frames ex00_empty = [].
 Proof.
@@ -70,6 +70,10 @@ Proof.
   split; [vm_compute; reflexivity|]. split; [vm_compute; reflexivity|]. split; [discriminate|].
   split; [vm_compute; discriminate|]. split; [repeat constructor|constructor].
 Qed.
+Lemma ex00_empty_decodes :
+  fst (read_bytes c04_legacy None (spec00 ex00_empty) no_args) = Ok (first_person_view ex00_empty) /\
+  b_shape (p_body (first_person_view ex00_empty)) = [0; 1; 3; 2] /\ b_data (p_body (first_person_view ex00_empty)) = [].
+Proof. split; [vm_compute; reflexivity|]. split; reflexivity. Qed.
 
 (* ---------- v0.1 ---------- *)
 Definition v01w : N := 1036831949.                (* float32 0.1 *)
@@ -80,16 +84,23 @@ Definition ex01 : content01 :=
 Lemma ex01_wf : wf01 ex01.
 Proof.
   unfold wf01. cbn [k1_header k1_fps k1_frames_field k1_people k1_data k1_conf ex01].
-  split; [apply hdr_wf; reflexivity|]. split; [vm_compute; reflexivity|].
-  repeat (split; [vm_compute; try reflexivity; try discriminate|]).
-  split; repeat constructor; vm_compute; reflexivity.
+  split; [apply hdr_wf; reflexivity|]. conjs.
+  (* never vm_compute a goal with a bound word: Pos.compare_cont recurses on its (literal) second argument *)
+  all: try (repeat constructor; vm_compute; reflexivity).
+  all: vm_compute; discriminate.
 Qed.
 Definition ex_win01 : rargs := {| a_sf := Some 1%Z; a_st := None; a_ef := Some 2%Z; a_et := None |}.
 Lemma ex01_window : valid_window01 ex01 ex_win01 /\ valid_window01 ex01 no_args /\
   b_shape (p_body (v01_expected ex01 ex_win01)) = [1; 1; 3; 2] /\
   b_data (p_body (v01_expected ex01 ex_win01)) = [fh; fh; fh; fh; fh; fh] /\
   b_shape (p_body (v01_expected ex01 no_args)) = [3; 1; 3; 2].
-Proof. repeat split; vm_compute; try reflexivity; try (left; reflexivity); intros; discriminate. Qed.
+Proof.
+  unfold valid_window01. conjs; try (vm_compute; reflexivity).
+  - right. vm_compute. reflexivity.
+  - vm_compute. discriminate.
+  - left. reflexivity.
+  - vm_compute. discriminate.
+Qed.
 
 (* a recording of 70 000 frames: the 16-bit field holds 70000 mod 65536 = 4464 *)
 Definition ex01_long : content01 :=
@@ -104,11 +115,9 @@ Proof.
   split; [|unfold frames01; rewrite Hl; split; [reflexivity|reflexivity]].
   unfold wf01. rewrite Hl. cbn [k1_header k1_fps k1_frames_field k1_people k1_data k1_conf ex01_long].
   split.
-  { unfold wf_header, u16. cbn [h_version h_dims h_comps fst snd]. split; [reflexivity|].
-    repeat split; try (vm_compute; reflexivity).
-    repeat constructor; unfold wf_component, wf_str, u16; cbn [ex_comp2 c_name c_format c_points c_limbs c_colors fst snd]; wf_strs. }
+  { unfold wf_header. cbn [h_version h_dims h_comps]. split; [reflexivity|]. wf_strs. }
   split; [vm_compute; reflexivity|].
-  repeat (split; [vm_compute; try reflexivity; try discriminate|]).
+  do 3 (split; [vm_compute; reflexivity|]). do 3 (split; [vm_compute; discriminate|]).
   split; [now rewrite !repeat_length|]. split; [reflexivity|].
   split; apply Forall_repeat; (split; [vm_compute; reflexivity|repeat constructor; vm_compute; reflexivity]).
 Qed.
@@ -136,7 +145,8 @@ Lemma version_examples :
   version_class 1050253722 = VUnknown (* 0.3 *) /\ version_class 1065353216 = VUnknown (* 1.0 *) /\
   version_class 3184315597 = VUnknown (* -0.1 *) /\ version_class 1 = VUnknown (* 1.4e-45 *) /\
   version_class 2143289344 = VUnknown (* NaN *) /\ version_class 2139095040 = VUnknown (* inf *) /\
-  version_class 1036764972 = VUnknown (* 0.0995 rounded down *) /\ version_class 1036899189 = VUnknown (* 0.1005 rounded up *).
+  version_class 1036764839 = VUnknown (* 0.09949999302625656: rounds to 0.099 *) /\ version_class 1036764840 = V01 (* 0.09950000047683716 *) /\
+  version_class 1036899057 = V01 (* 0.10049999505281448 *) /\ version_class 1036899058 = VUnknown (* 0.10050000250339508: rounds to 0.101 *).
 Proof. vm_compute. repeat split. Qed.
 Lemma ex_unknown_refused : wf_header (hdr 1050253722) /\ version_class (h_version (hdr 1050253722)) = VUnknown /\
   fst (read_bytes c04_legacy None (spec_header (hdr 1050253722) ++ spec_body01 ex01) no_args) = Err NotImplemented.
@@ -144,7 +154,7 @@ Proof. split; [apply hdr_wf; reflexivity|]. split; vm_compute; reflexivity. Qed.
 
 (* rewriting the decoded examples *)
 Lemma ex_rewrite :
-  (exists bs, write_pose (to_wpose (first_person_view ex00)) = Ok bs /\ lenN bs = 219) /\
+  (exists bs, write_pose (to_wpose (first_person_view ex00)) = Ok bs /\ lenN bs = 184) /\
   b_mask (p_body (rewrite_view (first_person_view ex00))) = b_mask (p_body (first_person_view ex00)) /\
   b_conf (p_body (rewrite_view (first_person_view ex00))) = b_conf (p_body (first_person_view ex00)).
 Proof. split; [eexists; split; vm_compute; reflexivity|]. split; vm_compute; reflexivity. Qed.
